@@ -19,18 +19,37 @@ def cacheP : P (Option (Cache Key Float)) :=
     let precs ← listOf int
     pure { capacity := cap, keyOf := floatKey precs, entries := [] })
 
-/-- the harness's stub `PredictionModel`: affine in speed and grade (in the model's own units),
-evaluated as `a0 + a1 * speed + a2 * grade` -/
+/-- a prediction record.  `aff`: the harness's stub `PredictionModel`, affine in speed and grade (in
+the model's own units), evaluated as `a0 + a1 * speed + a2 * grade`.  `tbl`: a real model file loaded
+through the configuration builders; its predictions are data — the rate at every (speed, grade) the
+real code evaluated, keyed by the exact doubles in the model's own units (anything else is NaN), and
+the results of the ideal-rate sweep; `ideal_energy_rate` / `real_world_energy_adjustment` as
+configured (or absent). -/
 def recP : P (PredRecord Float × Option (Cache Key Float)) := do
   let su ← unitP SpeedUnit.ofName?
   let gu ← unitP GradeUnit.ofName?
   let ru ← unitP EnergyRateUnit.ofName?
-  let a0 ← float; let a1 ← float; let a2 ← float
-  let ideal ← float
-  let adj ← float
-  let c ← cacheP
-  pure ({ rate := fun s g => a0 + a1 * s + a2 * g, speedUnit := su, gradeUnit := gu, rateUnit := ru,
-          idealRate := ideal, adjustment := adj }, c)
+  let tag ← next
+  match tag with
+  | "aff" => do
+    let a0 ← float; let a1 ← float; let a2 ← float
+    let ideal ← float
+    let adj ← float
+    let c ← cacheP
+    pure ({ rate := fun s g => a0 + a1 * s + a2 * g, speedUnit := su, gradeUnit := gu, rateUnit := ru,
+            idealRate := ideal, adjustment := adj }, c)
+  | "tbl" => do
+    let tbl ← listOf (do let s ← float; let g ← float; let r ← float; pure (s, g, r))
+    let ideal ← optOf float
+    let sweep ← listOf float
+    let adj ← optOf float
+    let c ← cacheP
+    let rate : Float → Float → Float := fun s g =>
+      match tbl.find? (fun t => t.1.toBits == s.toBits && t.2.1.toBits == g.toBits) with
+      | some t => t.2.2
+      | none => 0.0 / 0.0
+    pure (PredRecord.ofConfig rate su gu ru ideal sweep adj, c)
+  | _ => failure
 
 inductive Kind | ice | bev | phev
 
@@ -45,13 +64,13 @@ def vehicleP : P (Kind × Vehicle Float × Caches Key Float) := do
     let (r, c) ← recP
     let cap ← float
     let bu ← unitP EnergyUnit.ofName?
-    pure (.bev, .bev r { capacity := cap, startEnergy := cap, unit := bu }, { main := c, sustain := none })
+    pure (.bev, .bev r (Battery.ofConfig cap bu), { main := c, sustain := none })
   | "phev" => do
     let (rs, cs) ← recP
     let (rd, cd) ← recP
     let cap ← float
     let bu ← unitP EnergyUnit.ofName?
-    pure (.phev, .phev rs rd { capacity := cap, startEnergy := cap, unit := bu }, { main := cd, sustain := cs })
+    pure (.phev, .phev rs rd (Battery.ofConfig cap bu), { main := cd, sustain := cs })
   | _ => failure
 
 def queryP : P (SocQuery Float) := do
@@ -68,6 +87,8 @@ def errClass : Err → String
   | .gradeTable => "failure"
   | .timeCreate => "units"
   | .build => "build"
+  | .haversine => "failure"
+  | .headingTable => "failure"
 
 def showState (k : Kind) (s : VState Float) : String :=
   match k with
@@ -75,21 +96,81 @@ def showState (k : Kind) (s : VState Float) : String :=
   | .bev => joinSp [floatOut s.time, floatOut s.distance, floatOut s.electric, floatOut s.soc]
   | .phev => joinSp [floatOut s.time, floatOut s.distance, floatOut s.liquid, floatOut s.electric, floatOut s.soc]
 
-def case : P String := do
-  let (kind, v0, caches) ← vehicleP
-  let q ← queryP
+def peek : P String := fun ts =>
+  match ts with
+  | [] => none
+  | t :: _ => some (t, ts)
+
+def nameP : P NameQuery := do
+  let t ← next
+  match t with
+  | "absent" => pure .absent
+  | "nonstr" => pure .nonString
+  | "name" => do let k ← nat; pure (.name k)
+  | _ => failure
+
+/-- `hd n (a d)… id`: `energy_model_ops::get_headings` over a table of (start, end) headings -/
+def headingsCase : P String := do
+  let tbl ← listOf (do let a ← int; let d ← int; pure (a, d))
+  let id ← nat
+  endOfLine
+  match getHeadings tbl id with
+  | .error _ => pure "err failure"
+  | .ok (a, d) => pure s!"ok {a} {d}"
+
+/-- the `TraversalModelError` variant of the estimate's errors -/
+def estErr : Err → String
+  | .haversine => "failure"
+  | e => errClass e
+
+def routeCase : P String := do
+  let first ← peek
+  let cfg := first == "cfg"
+  -- the vehicle: given directly (built in-process), or selected from a configured library by the query
+  let (kind, vres, caches, built, malformed) ← (do
+    if cfg then
+      let _ ← next
+      let malformed ← bool
+      let lib : List (Nat × Kind × Vehicle Float × Caches Key Float) ←
+        listOf (do let id ← nat; let v ← vehicleP; pure (id, v))
+      let nm ← nameP
+      let q ← queryP
+      let vres := selectVehicle (lib.map fun (p : Nat × Kind × Vehicle Float × Caches Key Float) => (p.1, p.2.2.1)) nm q
+      let sel := match nm with
+        | .name id => libraryGet lib id
+        | _ => none
+      -- the vehicle as the builder left it (before the query): a battery vehicle starts full
+      let built := match sel with
+        | some (.ice, _, _) => "built - | "
+        | some (_, v, _) => "built " ++ floatOut v.initialState.soc ++ " | "
+        | none => "built - | "
+      let (kind, caches) := match sel with
+        | some (k, _, c) => (k, c)
+        | none => (Kind.ice, ({ main := none, sustain := none } : Caches Key Float))
+      pure (kind, vres, caches, built, malformed)
+    else
+      let (kind, v0, caches) ← vehicleP
+      let q ← queryP
+      pure (kind, v0.updateFromQuery q, caches, "", false))
   -- service
   let tmsu ← unitP SpeedUnit.ofName?
   let gt ← optOf (listOf float)
   let gu ← unitP GradeUnit.ofName?
-  let sdu ← unitP DistanceUnit.ofName?
-  let svc : Service Float := { timeModelSpeedUnit := tmsu, gradeTable := gt, gradeUnit := gu, distanceUnit := sdu }
+  let sdu ← if cfg then optOf (unitP DistanceUnit.ofName?) else (do let u ← unitP DistanceUnit.ofName?; pure (some u))
+  let svc : Service Float := Service.ofConfig tmsu gt gu sdu
   -- time model engine
   let tbl ← listOf float
   let esu ← unitP SpeedUnit.ofName?
-  let edu ← unitP DistanceUnit.ofName?
-  let etu ← unitP TimeUnit.ofName?
-  let eng : SpeedEngine Float := { speedTable := tbl, speedUnit := esu, distanceUnit := edu, timeUnit := etu }
+  let edu ← if cfg then optOf (unitP DistanceUnit.ofName?) else (do let u ← unitP DistanceUnit.ofName?; pure (some u))
+  let etu ← if cfg then optOf (unitP TimeUnit.ofName?) else (do let u ← unitP TimeUnit.ofName?; pure (some u))
+  -- built in-process the engine is a struct literal (only `get_max_speed` is called); configured, the
+  -- table goes through the file reader first
+  let engRes : Except Err (SpeedEngine Float × Float) :=
+    if cfg then SpeedEngine.ofConfig tbl esu edu etu
+    else match getMaxSpeed tbl with
+      | .error e => .error e
+      | .ok m => .ok ({ speedTable := tbl, speedUnit := esu, distanceUnit := edu.getD baseDistanceUnit,
+                        timeUnit := etu.getD baseTimeUnit }, m)
   -- feature units
   let ftu ← unitP TimeUnit.ofName?
   let fdu ← unitP DistanceUnit.ofName?
@@ -98,13 +179,14 @@ def case : P String := do
   let fu : FeatureUnits := { time := ftu, distance := fdu, liquid := flu, electric := feu }
   let edges ← listOf (do let id ← nat; let d ← float; pure ({ id := id, distance := d } : Edge Float))
   let bcd ← float
-  let hm ← float
+  let hm ← if cfg then optOf float else (do let x ← float; pure (some x))
   let socOverride ← optOf float
   endOfLine
-  match getMaxSpeed tbl, v0.updateFromQuery q with
-  | .error _, _ => pure "engine_rejected"
-  | .ok _, .error _ => pure "rejected"
-  | .ok maxSpeed, .ok v =>
+  match configReadable malformed, engRes, vres with
+  | .error _, _, _ => pure "engine_rejected"
+  | .ok _, .error _, _ => pure "engine_rejected"
+  | .ok _, .ok _, .error _ => pure (built ++ "rejected")
+  | .ok _, .ok (eng, maxSpeed), .ok v =>
     let s0 := v.initialStateWith socOverride
     let noCache := caches.main.isNone && caches.sustain.isNone
     let rec go (es : List (Edge Float)) (st : VState Float × Caches Key Float) (acc : List String) :
@@ -117,7 +199,7 @@ def case : P String := do
         | .ok st' =>
           -- without a cache: the speed and grade handed to the predictor on this edge
           let probe :=
-            if noCache then
+            if noCache && !cfg then
               match eng.traverse fu e st.1, getGrade svc.gradeTable e.id with
               | .ok s1, .ok g =>
                 " p " ++ floatOut (reconstructSpeed svc fu e st.1 s1) ++ " " ++ floatOut g ++ " "
@@ -128,12 +210,19 @@ def case : P String := do
     let (steps, last) := go edges (s0, caches) []
     let (bce, bcu) := v.bestCaseEnergy bcd svc.distanceUnit
     let bcs := v.bestCaseEnergyState fu bcd svc.distanceUnit last
-    let est := match estimateTraversal svc eng maxSpeed v fu hm last with
-      | .error x => "est err " ++ errClass x
+    let est := match estimateTraversalOpt svc eng maxSpeed v fu hm last with
+      | .error x => "est err " ++ estErr x
       | .ok s => "est ok " ++ showState kind s
-    pure (" | ".intercalate
-      (["init " ++ showState kind s0] ++ steps ++
-       ["bc " ++ floatOut bce ++ " " ++ bcu.name, "bcs " ++ showState kind bcs, est]))
+    -- a configured model is only reachable as a `TraversalModel`: no direct best-case calls
+    let best := if cfg then [] else ["bc " ++ floatOut bce ++ " " ++ bcu.name, "bcs " ++ showState kind bcs]
+    pure (built ++ " | ".intercalate (["init " ++ showState kind s0] ++ steps ++ best ++ [est]))
+
+def case : P String := do
+  let first ← peek
+  if first == "hd" then
+    let _ ← next
+    headingsCase
+  else routeCase
 
 def run (line : String) : String := Proto.run case line
 
